@@ -103,10 +103,19 @@ class FnSpec:
         return []
 
     # ---- verified view ----------------------------------------------------------
+    def make_globals(self, eng):
+        """per-path mutable global state (module variables the function reads or writes)"""
+        return {}
+
     def run_path(self, eng):
         args = self.make_args(eng)
         ctx = Ctx(eng, args)
         self.ctx = ctx
+        eng.st.globals = self.make_globals(eng)
+        ctx.globals = eng.st.globals
+        ctx.old_globals = {k: (v.snapshot() if hasattr(v, "snapshot") else v) for k, v in eng.st.globals.items()}
+        for a in eng.st.globals.values():
+            self._assume_wf(eng, a)
         for a in args.values():
             self._assume_wf(eng, a)
         for name, c in self._clauses(self.requires(ctx)):
@@ -213,6 +222,9 @@ class FnSpec:
         return self._module
 
     def lookup_global(self, eng, name, node):
+        g = getattr(eng.st, "globals", None)
+        if g and name in g:
+            return g[name]
         if name in self.globals:
             return self.globals[name]
         if name in BUILTIN_MODELS:
@@ -227,12 +239,10 @@ class FnSpec:
         raise OutOfSubset("unknown global %s at %s:%s" % (name, self.file, getattr(node, "lineno", "?")))
 
     def set_global(self, eng, name, v):
-        g = eng.st.__dict__.setdefault("globals_w", {})
+        g = getattr(eng.st, "globals", None)
+        if g is None or name not in g:
+            raise OutOfSubset("write to global %s that the contract does not declare (make_globals)" % name)
         g[name] = v
-        self.on_set_global(eng, name, v)
-
-    def on_set_global(self, eng, name, v):
-        raise OutOfSubset("write to global %s without a model" % name)
 
     def nested_def(self, eng, fdef, env):
         key = "%s.%s" % (self.qualname, fdef.name)
@@ -436,20 +446,21 @@ class FnSpec:
             raise OutOfSubset("symbolic set/dict comprehension at line %s" % e.lineno)
         i = z3.Int(sv.fresh_name("ci"))
         sub = _child_env(env)
-        # evaluate elt under index i (facts about i added temporarily)
+        counter0 = next(sv._counter)
+        # evaluate cond / elt under an arbitrary index i (facts about i added temporarily, so that the
+        # obligations of partial operations inside the comprehension are proved for every i)
         mark = len(eng.st.facts)
-        eng.st.facts.append((z3.And(i >= 0, i < n), False))
+        rng = z3.And(i >= 0, i < n)
+        eng.st.facts.append((rng, False))
         eng.assign(g.target, item(i), sub)
         conds = []
         for cond in g.ifs:
             c = eng.truthy(eng.eval(cond, sub))
             conds.append(c if not isinstance(c, bool) else z3.BoolVal(c))
+            eng.st.facts.append((conds[-1], False))
         cond = z3.And(*conds) if conds else None
-        nfacts_before = len(eng.st.facts)
         elt = eng.eval(e.elt, sub)
-        # facts added while evaluating (e.g. callee postconditions about fresh results) mention i; they
-        # hold for the arbitrary i -> keep them as universally quantified facts
-        new_facts = eng.st.facts[mark + 1 :]
+        new_facts = eng.st.facts[mark + 1 + len(conds) :]
         del eng.st.facts[mark:]
         if not isinstance(elt, Sym):
             if isinstance(elt, str):
@@ -459,24 +470,29 @@ class FnSpec:
                 elt = Sym(tt.mk(*[x.term for x in elt]), tt)
             else:
                 raise OutOfSubset("comprehension element %r at line %s" % (elt, e.lineno))
+        # soundness: nothing created while evaluating under i may leak (it would be a function of i)
+        for t in [elt.term] + [f for f, h in new_facts]:
+            for nm in _const_names(t):
+                if "!" in nm:
+                    try:
+                        num = int(nm.rsplit("!", 1)[1])
+                    except ValueError:
+                        continue
+                    if num > counter0 and nm != str(i):
+                        raise OutOfSubset("comprehension body creates fresh symbol %s (line %s)" % (nm, e.lineno))
+        guard = rng if cond is None else z3.And(rng, cond)
+        for f, h in new_facts:
+            # facts established for the arbitrary index (cut-assumed obligations): hold for all i
+            eng.assume(z3.ForAll([i], z3.Implies(guard, f)), heavy=True)
         rty = TSeq(elt.ty)
         r = rty.fresh("comp")
-        rng = z3.And(i >= 0, i < n)
-        # skolemise the fresh symbols created under i?  They are functions of i; we keep soundness by
-        # only asserting the relation through the element term, which is a function of i and of those
-        # fresh symbols.  To stay sound we require that no fresh symbol was created (pure elt).
-        extra = [f for f, h in new_facts]
         if cond is None:
             eng.assume(z3.Length(r.term) == n)
-            body = r.term[i] == elt.term
-            if extra:
-                raise OutOfSubset("comprehension element with side facts at line %s" % e.lineno)
-            eng.assume(z3.ForAll([i], z3.Implies(rng, body)), heavy=True)
+            eng.assume(z3.ForAll([i], z3.Implies(rng, r.term[i] == elt.term)), heavy=True)
         else:
-            if extra:
-                raise OutOfSubset("comprehension element with side facts at line %s" % e.lineno)
             j = z3.Int(sv.fresh_name("cj"))
             eng.assume(z3.Length(r.term) <= n)
+            eng.assume(z3.Length(r.term) >= 0)
             eng.assume((z3.Length(r.term) > 0) == z3.Exists([i], z3.And(rng, cond)), heavy=True)
             eng.assume(
                 z3.ForAll([j], z3.Implies(z3.And(j >= 0, j < z3.Length(r.term)), z3.Exists([i], z3.And(rng, cond, r.term[j] == elt.term)))),
@@ -906,6 +922,24 @@ def _has_quant(c):
     return False
 
 
+def _const_names(t):
+    out = set()
+    seen = set()
+    stack = [t]
+    while stack:
+        x = stack.pop()
+        if x.get_id() in seen:
+            continue
+        seen.add(x.get_id())
+        if z3.is_const(x) and x.decl().kind() == z3.Z3_OP_UNINTERPRETED:
+            out.add(x.decl().name())
+        if z3.is_quantifier(x):
+            stack.append(x.body())
+        else:
+            stack.extend(x.children())
+    return out
+
+
 def as_seq(eng, v, hint=None):
     if isinstance(v, SeqBox):
         return v.sym()
@@ -1254,6 +1288,7 @@ def py_isinstance(eng, v, classes):
     """z3 Bool / bool for isinstance(v, classes)."""
     if not isinstance(classes, tuple):
         classes = (classes,)
+    classes = tuple(getattr(c, "pyclass", c) if isinstance(c, Model) else c for c in classes)
     if isinstance(v, Sym):
         t = v.ty
         if hasattr(t, "isinstance_"):
@@ -1415,5 +1450,9 @@ BUILTIN_MODELS = {
     "type": Model(m_type, "type"),
     "cast": Model(m_cast, "cast"),
 }
+
+BUILTIN_MODELS["str"].pyclass = str
+BUILTIN_MODELS["list"].pyclass = list
+BUILTIN_MODELS["type"].pyclass = type
 
 CALLABLE_MODELS = {}
